@@ -322,7 +322,23 @@ func stringContents(c *engine.Ctx) {
 			ms = append(ms, s)
 		}
 	}
-	c.Bound("string-contents", fmt.Sprintf("%d text attributes x %d near-strings x {root, child} x {1.4, 1.5}", len(slots), len(ms)))
+	// document level: the serial number is an arbitrary string for the library
+	for mi := range ms {
+		for _, f := range versions {
+			mi, f := mi, f
+			c.Case(func() any { return map[string]any{"attribute": "document.serial-number", "value": ms[mi], "format": string(f)} }, func(t *engine.T) *engine.Violation {
+				d := docOf(two())
+				d.Metadata.Id = ms[mi]
+				if v := RoundTrip(t, d, f); v != nil {
+					return v
+				}
+				t.State(fmt.Sprint("serial:", ms[mi], f))
+				t.Outcome("string-ok")
+				return nil
+			})
+		}
+	}
+	c.Bound("string-contents", fmt.Sprintf("%d text attributes x %d near-strings x {root, child} x {1.4, 1.5}; the document serial number x the same strings", len(slots), len(ms)))
 	for si := range slots {
 		for mi := range ms {
 			for who := 0; who < 2; who++ {
